@@ -29,6 +29,7 @@ type WorkPlan struct {
 	Limit    int     `json:"limit"`               // microtask concurrency limit
 	Requeue  bool    `json:"requeue,omitempty"`   // C06: re-queue a task after its execution panicked
 	RequeueFast bool `json:"requeue_fast,omitempty"` // ... as soon as every task has run once, and expect the re-run promptly
+	Warm     bool    `json:"warm,omitempty"`      // C05 with management: all modules are stopped and started once before the workload, with a worker started on each stopped module that outlives the restart
 }
 
 // WMod is a module of a WorkPlan.
@@ -57,7 +58,7 @@ var drainLadder = []time.Duration{0, time.Millisecond, time.Second, 30 * time.Se
 
 var itemKinds = []string{"worker", "runworker", "svc", "task", "tasksched", "mthigh", "mtmed", "mtlow", "mtrunhigh", "mtrunmed", "mtrunlow", "sighigh", "sigmed", "siglow", "hook"}
 
-const nPanicKinds = 8
+const nPanicKinds = 10
 
 type customPanic struct {
 	A int
@@ -80,9 +81,22 @@ func panicValue(kind int, tag string) any {
 		return context.Canceled
 	case 8:
 		return fmt.Errorf("wrapped: %w", context.Canceled)
+	case 9:
+		var e *derefErr // an error-typed nil pointer: calling Error on it panics
+		return e
+	case 10:
+		return spitefulErr{tag}
 	}
 	return nil
 }
+
+type derefErr struct{ msg string }
+
+func (e *derefErr) Error() string { return e.msg }
+
+type spitefulErr struct{ tag string }
+
+func (e spitefulErr) Error() string { panic("Error method panics " + e.tag) }
 
 func isSig(kind string) bool { return kind == "sighigh" || kind == "sigmed" || kind == "siglow" }
 
@@ -167,6 +181,15 @@ func genWork(rng *rand.Rand, tier, prop string) *WorkPlan {
 		it.EvMod = rng.IntN(n)
 		it.Done = 1 + rng.IntN(3)
 		p.Items = append(p.Items, it)
+	}
+	if prop == "C05" && p.Mgmt && rng.IntN(3) == 0 {
+		p.Warm = true
+		for i := range p.Mods {
+			p.Mods[i].StopErr = false
+		}
+		for i := range p.Items {
+			p.Items[i].AtStart = false
+		}
 	}
 	if p.Mgmt && rng.IntN(2) == 0 {
 		k := 1 + rng.IntN(n)
@@ -484,6 +507,32 @@ func execWork(prop string, p *WorkPlan, rc *simkit.RunCtx) {
 	if prop == "C06" && lifePanicBeforeStart && s.startErr == nil {
 		rc.Fail("C06.lifecycle-panic-not-reported", "Start returned nil although a prep/start routine panicked", "")
 		return
+	}
+	if s.startErr == nil && p.Warm {
+		// second use: stop everything, start a worker on every stopped module that ignores its (already cancelled)
+		// context for a while, start everything again; what the first run left behind must not disturb the second
+		for _, m := range s.mods {
+			m.Disable()
+		}
+		if err := modules.ManageModules(); err != nil {
+			rc.Fail(prop+".harness", "warm-up stop failed", err.Error())
+			return
+		}
+		for i, m := range s.mods {
+			d := []time.Duration{300 * time.Millisecond, 2 * time.Second}[i%2]
+			m.StartWorker("straggler", func(ctx context.Context) error {
+				time.Sleep(d)
+				return nil
+			})
+		}
+		for _, m := range s.mods {
+			m.Enable()
+		}
+		if err := modules.ManageModules(); err != nil {
+			rc.Fail(prop+".harness", "warm-up restart failed", err.Error())
+			return
+		}
+		rc.Probe("restarted-before-workload")
 	}
 	if s.startErr == nil {
 		for k, it := range p.Items {
